@@ -7,6 +7,7 @@ import (
 	"encoding/hex"
 	"fmt"
 	"io"
+	"strings"
 	"sync"
 	"sync/atomic"
 
@@ -66,8 +67,30 @@ func main() {
 	var evals, validated int64
 	var mu sync.Mutex
 	alphabet := map[string]seqItem{} // one boundary-distinct frame per (version, kind, compression class)
-	n := fcheck.ForEach(c, o, func(cs gen.Case) {
+	var perCase func(cs gen.Case)
+	perCase = func(cs gen.Case) {
 		v := cs.Frame.Header.Version
+		// tolerated non-canonical forms: the API documents that named values are silently ignored when positional
+		// values are present; lengths and consumption must agree for such a frame too (its content is not compared)
+		if !strings.HasSuffix(cs.Name, "/+named") {
+			var qo *message.QueryOptions
+			switch m := cs.Frame.Body.Message.(type) {
+			case *message.Query:
+				qo = m.Options
+			case *message.Execute:
+				qo = m.Options
+			}
+			if qo != nil && len(qo.PositionalValues) > 0 && len(qo.NamedValues) == 0 && v != gen.V2 {
+				f2 := gen.Clone(cs.Frame).(*frame.Frame)
+				switch m := f2.Body.Message.(type) {
+				case *message.Query:
+					m.Options.NamedValues = map[string]*primitive.Value{"a_named_value": primitive.NewValue([]byte{1, 2, 3, 4, 5, 6, 7})}
+				case *message.Execute:
+					m.Options.NamedValues = map[string]*primitive.Value{"a_named_value": primitive.NewValue([]byte{1, 2, 3, 4, 5, 6, 7})}
+				}
+				perCase(gen.Case{Name: cs.Name + "/+named", Frame: f2})
+			}
+		}
 		// (b) the length each message reports for itself equals the bytes its encoder writes
 		mc := codecFor(cs.Frame.Header.OpCode)
 		if mc != nil {
@@ -154,7 +177,8 @@ func main() {
 				mu.Unlock()
 			}
 		}
-	})
+	}
+	n := fcheck.ForEach(c, o, perCase)
 	// ---- sequences on one stream: per version and compression, all sequences of length <= L ----
 	L := 2
 	if c.Thorough() {
